@@ -163,7 +163,7 @@ def _open_session_token(
     end_pos = sid_pos + _SESSION_ID_LEN + _PLAINTEXT_SUFFIX.size
     if len(plaintext) != end_pos:
         raise SessionLostError("malformed session token")
-    server_id = plaintext[prefix_len:sid_pos].decode("ascii", errors="replace")
+    server_id = plaintext[prefix_len:sid_pos].decode("utf-8", errors="replace")
     session_id = plaintext[sid_pos : sid_pos + _SESSION_ID_LEN]
     (expires_at,) = _PLAINTEXT_SUFFIX.unpack_from(plaintext, sid_pos + _SESSION_ID_LEN)
     return server_id, session_id, expires_at
